@@ -161,6 +161,10 @@ class Construct(Sub):
     shards = {"quick": 4, "thorough": 8}
     rule = "non-trivial: wall time skipped or repeated, or within one gap length of a transition edge"
 
+    def describe(self, case):
+        kind, pre, gap = T.classify_wall(case["w"], case["zone"])
+        return {"wall": T.wall_from_us(case["w"]).isoformat(), "zone": case["zone"], "wall_time_is": kind}
+
     def strategy(self, ctx):
         return case_strategy()
 
